@@ -465,11 +465,13 @@ theorem C11_e2e_recursive_covered (w : AE.World) (wc : WalkCfg) (o : Opts) (tree
   obtain ⟨d, hd, hpd⟩ := hp
   split at hpd
   · simp only [List.mem_cons, List.not_mem_nil, or_false] at hpd; exact .inl (hpd ▸ hd)
-  · right
-    simp only [envOf, belowOf] at hpd
-    split at hpd
-    · exact hpd
-    · exact (List.mem_filter.mp hpd).1
+  · split at hpd
+    · cases hpd
+    · right
+      simp only [envOf, belowOf] at hpd
+      split at hpd
+      · exact hpd
+      · exact (List.mem_filter.mp hpd).1
 
 end E2E
 
